@@ -606,26 +606,39 @@ theorem resolve_rel (hw : WorldCovered env G) {st st' : RState} (hst : StR d env
 
 end Resolve
 
-/-- the `$ref` keyword function on two related states -/
-theorem kwRef_simR {d : Draft} {env : Env} {G : Str → Prop} (hw : WorldCovered env G) {rec rec' : Rec}
+/-- the `$ref` keyword function on two related states.  A falsy scalar value (`None`, `0`, `0.0`,
+    `false`) is read as the EMPTY reference when the base URI in effect is non-empty (`refReading`),
+    which `Spec.refsOf` — the STRING values of `$ref` members — does not list: hence `hE`, the empty
+    reference belongs to `G` -/
+theorem kwRef_simR {d : Draft} {env : Env} {G : Str → Prop} (hw : WorldCovered env G) (hE : G []) {rec rec' : Rec}
     (hrec : ∀ inst s s', Ins d s s' → RefsIn G s' → SimR (StR d env G) (rec inst s) (rec' inst s'))
     (ref inst : Json) (hG : ∀ r, ref = .str r → G r) :
     SimR (StR d env G) (kwRef env rec ref inst) (kwRef env rec' ref inst) := by
-  intro b st st' hst
-  unfold JS.kwRef
-  cases ref with
-  | str r =>
-    dsimp only
-    obtain ⟨e1, e2⟩ := resolve_rel hw hst (hG r rfl)
-    rcases hx : resolve env r st with ⟨r1, s1⟩
-    rcases hx' : resolve env r st' with ⟨r2, s2⟩
-    rw [hx, hx'] at e1 e2
-    dsimp only at e1 e2
-    cases e1 with
-    | raise e => exact ⟨rfl, rfl, e2⟩
-    | miss q => exact ⟨rfl, rfl, e2⟩
-    | ok url ht ht' => exact SimR.withScope scopeCompat_StR env url (hrec inst _ _ ht ht') b s1 s2 e2
-  | _ => exact ⟨rfl, rfl, hst⟩
+  suffices hstr : ∀ r, G r →
+      SimR (StR d env G) (kwRef env rec (.str r) inst) (kwRef env rec' (.str r) inst) by
+    cases hq : refReading ref with
+    | typeError => rw [kwRef_typeError hq, kwRef_typeError hq]; exact fun _ _ _ hst => ⟨rfl, rfl, hst⟩
+    | ref r => rw [kwRef_ref hq, kwRef_ref hq]; exact hstr r (hG r (refReading_ref hq))
+    | emptyOrUnresolvable =>
+      rw [kwRef_falsy hq, kwRef_falsy hq]
+      intro b st st' hst
+      have htop : st.top = st'.top := by unfold RState.top; rw [hst.ins.scopes]
+      unfold ifTopEmpty
+      rw [← htop]
+      split
+      · exact ⟨rfl, rfl, hst⟩
+      · exact hstr [] hE b st st' hst
+  intro r hGr b st st' hst
+  rw [kwRef_str, kwRef_str]
+  obtain ⟨e1, e2⟩ := resolve_rel hw hst hGr
+  rcases hx : resolve env r st with ⟨r1, s1⟩
+  rcases hx' : resolve env r st' with ⟨r2, s2⟩
+  rw [hx, hx'] at e1 e2
+  dsimp only at e1 e2
+  cases e1 with
+  | raise e => exact ⟨rfl, rfl, e2⟩
+  | miss q => exact ⟨rfl, rfl, e2⟩
+  | ok url ht ht' => exact SimR.withScope scopeCompat_StR env url (hrec inst _ _ ht ht') b s1 s2 e2
 
 /-! ### the insertion relations, with the reference strings of the primed side in `G` -/
 
@@ -1525,13 +1538,13 @@ theorem evalStep_simR (hc : ScopeCompat SR) {rec rec' : Rec} (hrec : RecRelR SR 
 end Port
 
 /-- the whole evaluation, on two related states -/
-theorem eval_recRelR (d : Draft) (env : Env) (G : Str → Prop) (hw : WorldCovered env G) (impl : FmtImpl)
-    (fc : Option FormatChecker) :
+theorem eval_recRelR (d : Draft) (env : Env) (G : Str → Prop) (hw : WorldCovered env G) (hE : G [])
+    (impl : FmtImpl) (fc : Option FormatChecker) :
     ∀ fuel, RecRelR (StR d env G) d G (eval env impl (d.cfg fc) fuel) (eval env impl (d.cfg fc) fuel)
   | 0 => fun _ _ _ _ => SimR.stopG _
   | n + 1 =>
-    evalStep_simR scopeCompat_StR (eval_recRelR d env G hw impl fc n) env
-      (fun ref inst hG => kwRef_simR hw (fun i s s' h h' => eval_recRelR d env G hw impl fc n i s s' ⟨h, h'⟩)
+    evalStep_simR scopeCompat_StR (eval_recRelR d env G hw hE impl fc n) env
+      (fun ref inst hG => kwRef_simR hw hE (fun i s s' h h' => eval_recRelR d env G hw hE impl fc n i s s' ⟨h, h'⟩)
         ref inst hG) impl fc
 
 /-! ### pointer navigation commutes with insertion (a way to establish `Spec.Lands`) -/
